@@ -1,5 +1,23 @@
 import GqlProofs.Props.C07
-import GqlProofs.Props.C08
+import GqlProofs.ValSpec.Local
+import GqlProofs.ValSpec.Stateful
+import GqlProofs.ValSpec.Spreads
+import GqlProofs.ValSpec.KnownDirs
+import GqlProofs.ValSpec.LeafFrag
+import GqlProofs.ValSpec.TypeRules
+import GqlProofs.ValSpec.Cycles
+import GqlProofs.ValSpec.InputFields
+import GqlProofs.ValSpec.SingleRootFinal
+import GqlProofs.ValSpec.SingleRootEx
+import GqlProofs.ValSpec.IntrospectionLinks
+import GqlProofs.ValSpec.PossibleSpreads
+import GqlProofs.ValSpec.UnusedFragments
+import GqlProofs.ValSpec.VarRules
+import GqlProofs.ValSpec.VarPosition
+import GqlProofs.ValSpec.ValuesCorrectFinal
+import GqlProofs.Validate.OverlapSound
+import GqlProofs.Props.C18
+import GqlProofs.Validate.OverlapWitness
 set_option linter.unusedSimpArgs false
 set_option linter.unusedVariables false
 /-
@@ -8,8 +26,9 @@ set_option linter.unusedVariables false
   `C08_default_rules_iff_spec_partial` carries `C08Hyps s d`, `C09_links_correct` carries
   `Gql.Spec.Closed s` and `(s.type? (str "String")).isSome`.  Every hypothesis of these that speaks
   about the schema only is proved here from `Gql.Load.load sd = .ok s`, each as its own theorem
-  `loaded_<condition>`; `loaded_hyps` bundles them (`LoadedHyps s`) and `C08Hyps_of_loaded` assembles
-  `C08Hyps s d` from the bundle and the remaining, document-side hypotheses (`C08DocHyps s d`).
+  `loaded_<condition>`; `loaded_hyps` bundles them (`LoadedHyps s`); `C08Hyps_of_loaded` (at the end of
+  `Props/C08.lean`) assembles `C08Hyps s d` from the bundle and the remaining, document-side
+  hypotheses (`C08DocHyps s d`).
 
   What is NOT an invariant of `load` on arbitrary `SchemaDoc` trees is kept as an explicit, named
   hypothesis — nothing is weakened silently.  The hypotheses are of three kinds:
@@ -506,42 +525,6 @@ theorem loaded_hyps {sd : SchemaDoc} {s : Schema} (h : load sd = .ok s) (hp : Pr
     directiveArgTypes := loaded_closedDirectiveArgTypes h
     outputTypes := loaded_fieldTypesAreOutputTypes h hi hqi }
 
-/-! ### what remains of `C08Hyps` -/
-
-/-- the hypotheses of the C08 capstone that speak about the DOCUMENT (shape of parser output, the
-    numeric-literal and leaf-lexeme conditions, the side conditions of SingleFieldSubscriptions and of
-    the VariablesInAllowedPosition finding): `C08Hyps s d` without its schema-side fields -/
-structure C08DocHyps (s : Schema) (d : QueryDoc) : Prop where
-  kinds : ∀ op ∈ d.ops, op.op ∈ parserOpKinds
-  wellParented : Gql.Validate.Spec.wellParented s d = true
-  valuesShaped : valuesShaped s d = true
-  constDefaults : constDefaults d = true
-  typeConds : ∀ f ∈ d.frags, f.typeCond ≠ []
-  selectRoot : subscriptionsSelectRoot s d = true
-  rootKeys : rootKeysConsistent s d = true
-  defaultedLocations : defaultedLocationsHarmless s d = true
-  numLiterals : numLiteralsOK s d = true
-  leaves : leavesWellFormed s d = true
-  usePos : usePosDistinct s d = true
-
-/-- the hypothesis structure of `C08_default_rules_iff_spec_partial`, for a loaded schema -/
-theorem C08Hyps_of_loaded {s : Schema} {d : QueryDoc} (L : LoadedHyps s) (D : C08DocHyps s d) : C08Hyps s d :=
-  { kinds := D.kinds, wellParented := D.wellParented, outputTypes := L.outputTypes d,
-    noEmptyTypeName := L.noEmptyTypeName, possibleOK := L.possibleOK, subscriptionRoot := L.subscriptionRoot,
-    valuesShaped := D.valuesShaped, constDefaults := D.constDefaults, typeConds := D.typeConds,
-    selectRoot := D.selectRoot, rootKeys := D.rootKeys, inputPositions := L.inputPositions,
-    defaultedLocations := D.defaultedLocations, schemaOK := L.schemaOK, argTypes := L.argTypes,
-    directiveArgTypes := L.directiveArgTypes, numLiterals := D.numLiterals, leaves := D.leaves,
-    usePos := D.usePos }
-
-/-- **the C08 capstone for a loaded schema**: the schema-side hypotheses are discharged by the loader -/
-theorem loaded_default_rules_iff_spec_partial {sd : SchemaDoc} {s : Schema} (h : load sd = .ok s)
-    (hp : PreludeDeclared sd) (hks : KindFieldless .scalar sd) (hke : KindFieldless .enum sd) (hn : NamesNonEmpty sd)
-    (hroots : Gql.Spec.rootTypesAreObjects s = true) (d : QueryDoc) (D : C08DocHyps s d) :
-    validate c08Rules s d = .ok [] ↔
-      ((Gql.Validate.Spec.specVerdicts s d).filter (fun p => !c08Uncovered.contains p.1)).all (·.2) = true :=
-  C08_default_rules_iff_spec_partial s d (C08Hyps_of_loaded (loaded_hyps h hp hks hke hn hroots) D)
-
 /-! ### kernel-checked witnesses: the hypotheses (R) and (T) cannot be dropped -/
 
 namespace Witness
@@ -673,8 +656,6 @@ end Gql.EndToEnd
 #print axioms Gql.EndToEnd.fieldTypesAreOutputTypes_of_closed
 #print axioms Gql.EndToEnd.loaded_fieldTypesAreOutputTypes
 #print axioms Gql.EndToEnd.loaded_hyps
-#print axioms Gql.EndToEnd.C08Hyps_of_loaded
-#print axioms Gql.EndToEnd.loaded_default_rules_iff_spec_partial
 #print axioms Gql.EndToEnd.loaded_subscriptionRootExact_counterexample
 #print axioms Gql.EndToEnd.loaded_scalars_no_fields_counterexample
 #print axioms Gql.EndToEnd.loaded_inputPositionsPlain_counterexample
